@@ -396,3 +396,89 @@ def swallowed_pulls(tree, res, modules=None):
                 if pulls:
                     out.append((mod, fn, tr, h, pulls[0]))
     return out
+
+
+DIM_SITES = (("lena.structures.histogram", "histogram.__init__"), ("lena.structures.hist_functions", "check_edges_increasing"),
+             ("lena.structures.hist_functions", "get_bin_edges"), ("lena.structures.hist_functions", "unify_1_md"),
+             ("lena.structures.hist_functions", "iter_bins_with_edges"), ("lena.structures.hist_functions", "init_bins"))
+# init_bins: isinstance(edges[0], (list, tuple)) -- agrees with hasattr(., '__iter__') for every axis container that lena documents
+# (lists, tuples; mesh() returns lists); it differs only for other iterables (arrays), which no function here promises to handle
+DIM_EXCEPTIONS = {("lena.structures.hist_functions", "init_bins"): "isinstance(edges[0], (list, tuple))"}
+
+
+def check_dimension_predicates(ctx, rule, why):
+    """One question -- are these edges multidimensional? -- is asked in six places, each by looking at edges[0].  A histogram whose
+    constructor (hasattr(edges[0], '__iter__')) took its axes for two dimensions while an iterator (isinstance(edges[0], list))
+    takes them for one yields a single bogus cell.  All sites must ask the same test; the one tabled exception is compared with
+    its recorded text."""
+    found = {}
+    for modname, qual in DIM_SITES:
+        fn = ctx.tree.func(modname, qual)
+        epar = "edges" if "edges" in A.func_params(fn) else None
+        if not ctx.require(epar is not None, rule, fn, "%s has no edges parameter" % qual):
+            continue
+        tests = []
+        for n in A.walk_local(fn):
+            if isinstance(n, (ast.If, ast.IfExp, ast.While)):
+                for t, _pol in A.literals(n.test, True):
+                    t, _ = A.strip_not(t)
+                    if any(isinstance(x, ast.Subscript) and A.src(x) == "%s[0]" % epar for x in ast.walk(t)) and isinstance(t, ast.Call) \
+                            and A.call_name(t) in ("hasattr", "isinstance"):
+                        tests.append(t)
+        if not ctx.require(tests, rule, fn, "%s: no test on %s[0] found (how does it tell 1- from multidimensional edges?)" % (qual, epar)):
+            continue
+        found[(modname, qual)] = tests
+    # the reference is what most sites ask (the deviant is reported, whichever it is)
+    votes = {}
+    for key, tests in found.items():
+        if key not in DIM_EXCEPTIONS:
+            for t in tests:
+                s = A.src(t).replace('"', "'")
+                votes[s] = votes.get(s, 0) + 1
+    ref = max(sorted(votes), key=lambda k: votes[k]) if votes else None
+    if not ctx.require(ref is not None, rule, ("lena.structures.histogram", "histogram.__init__"), "reference dimension test not found"):
+        return
+    for key, tests in sorted(found.items()):
+        for t in tests:
+            s = A.src(t).replace('"', "'")
+            want = DIM_EXCEPTIONS.get(key, ref)
+            ctx.check(rule, s == want, t, "%s tells one- from multidimensional edges by `%s`, the other places (constructor, edge check, iterators) by `%s`: "
+                      "for axes the one accepts and the other does not (tuples) the same histogram has two dimensions here and one there -- %s"
+                      % (key[1], s, ref, why), detail="%s: dimension test `%s`%s" % (key[1], s, " (tabled exception)" if key in DIM_EXCEPTIONS else ""),
+                      construct="dim-test:%s" % key[1])
+    ctx.instances_floor(rule + "/dim", len(found), 6, "places that decide the dimension of edges")
+
+
+def check_found_by_identity(ctx, rule, module_prefixes=("lena.core.",)):
+    """A local that is None until an element (any user object) has been found must be tested with `is None`: the truth value of an
+    element is its own business -- an accumulator that defines __len__ or __bool__ is falsy while it is empty, at construction."""
+    from ..kinds import truth_tests
+    n = 0
+    hits = 0
+    for mod, fn in ctx.tree.functions():
+        if not mod.name.startswith(tuple(module_prefixes)):
+            continue
+        none_init, other = set(), set()
+        for st in A.walk_local(fn):
+            if isinstance(st, ast.Assign) and len(st.targets) == 1 and isinstance(st.targets[0], ast.Name):
+                if isinstance(st.value, ast.Constant) and st.value.value is None:
+                    none_init.add(st.targets[0].id)
+                elif not isinstance(st.value, ast.Constant):
+                    other.add(st.targets[0].id)
+        cands = none_init & other
+        if not cands:
+            continue
+        n += 1
+        for x in A.walk_local(fn):
+            if isinstance(x, (ast.If, ast.While, ast.IfExp, ast.Assert)):
+                for tt in truth_tests(x.test):
+                    if isinstance(tt, ast.Name) and tt.id in cands:
+                        hits += 1
+                        ctx.violation(rule, tt, "%s decides whether `%s` was found by its truth value (`%s`); it is None until an element is "
+                                      "found, and an element that defines __len__ or __bool__ (a container-like accumulator, empty at "
+                                      "construction) is falsy: a legal branch is rejected with LenaTypeError (or taken for absent), while the "
+                                      "same element given bare is accepted" % (A.qualname(fn), tt.id, A.short(x.test, 40)),
+                                      construct="found-by-truth:%s:%s" % (A.qualname(fn), tt.id))
+    ctx.instances_floor(rule + "/found", n, 2, "functions with a None-until-found local")
+    if not hits:
+        ctx.ok(rule, (module_prefixes[0].rstrip("."), "<package>"), "%d functions: None-until-found locals are tested with `is None`" % n)
